@@ -11,7 +11,7 @@
    must reproduce it (Hrecomp). *)
 From Coq Require Import ZArith List String Bool Lia ZifyBool.
 From Hexital Require Import Base.Prelude Base.Num Model.Manager Model.Candle Model.Readings Model.Analysis
-  Model.Engine Proofs.ListProofs Proofs.EngineProofs Proofs.MaintProofs.
+  Model.Engine Proofs.ListProofs Proofs.EngineProofs Proofs.MaintProofs Proofs.CollapseProofs Proofs.ComposeProofs.
 Import ListNotations.
 Local Open Scope Z_scope.
 
@@ -304,6 +304,136 @@ Proof.
   intros Hf H. rewrite batch_is_canonD in H by exact Hf.
   assert (Hc : IsCanonD st) by (eapply canonD_acc_iscanon; [constructor|exact Hf|exact H]).
   pose proof (append_is_canonD st [] Hc (Forall_nil _)) as A. rewrite app_nil_r in A. exact A.
+Qed.
+
+(* ---------------------------------------------------------------- collapsing timeframe *)
+(* the indicator's candles are the collapse of a raw stream: after the stream so far (xs) the
+   store is the canonical decoration of resample tf xs; an append re-collapses the decorated
+   buckets followed by the new raw candles and calculates *)
+Notation mrg := (Candle.merge NO).
+Notation resample := (Manager.resample payload mrg).
+Notation resample_acc := (Manager.resample_acc payload mrg).
+Notation collapse := (Manager.collapse payload mrg).
+Notation alike := (alike payload mrg).
+Hypothesis HGm : forall ts a b, G {| t := ts; p := mrg a b |}.
+Hypothesis HGt : forall ts (c : cd), G c -> G {| t := ts; p := p c |}.
+
+Lemma relabel_freshD ts (c : cd) : freshD c -> freshD {| t := ts; p := p c |}.
+Proof. intros (H1 & H2 & H3). repeat split; [exact H1|exact H2|apply HGt; exact H3]. Qed.
+
+Lemma merged_freshD ts a b : freshD {| t := ts; p := mrg a b |}.
+Proof. repeat split; [apply (merged_fresh NO I)|apply (merged_fresh NO M)|apply HGm]. Qed.
+
+Lemma deco_alike d r : alike (deco d r) d.
+Proof.
+  unfold deco. destruct (setk_alike NO I (slotM d (snd r)) (rndI (fst r))) as [E1 E2].
+  assert (A : alike (slotM d (snd r)) d).
+  { destruct (snd r) as [w|]; cbn [EngineProofs.slot]; [apply (setk_alike NO M)|split; [reflexivity|intros q; reflexivity]]. }
+  destruct A as [A1 A2]. split; [congruence|]. intros q. rewrite E2. apply A2.
+Qed.
+
+Lemma resample_acc_freshD tf : forall l acc, Forall freshD acc -> Forall freshD l -> Forall freshD (resample_acc tf acc l).
+Proof.
+  induction l as [|c l IH]; intros acc Ha Hl; cbn [Manager.resample_acc].
+  - apply Forall_rev. exact Ha.
+  - inversion Hl as [|? ? Hc Hl']; subst. destruct acc as [|prev acc'].
+    + apply IH; [constructor; [apply relabel_freshD; exact Hc|constructor]|exact Hl'].
+    + inversion Ha as [|? ? Hp Ha']; subst. destruct (t prev =? label (t c) tf); apply IH; try assumption.
+      * constructor; [apply merged_freshD|exact Ha'].
+      * constructor; [apply relabel_freshD; exact Hc|exact Ha].
+Qed.
+
+Lemma canonD_acc_alike : forall todo a r, canonD_acc a todo = Ok r -> exists r', r = a ++ r' /\ Forall2 alike r' todo.
+Proof.
+  induction todo as [|d todo IH]; intros a r H; cbn [canonD_acc] in H.
+  - inversion H; subst. exists []. split; [rewrite app_nil_r; reflexivity|constructor].
+  - destruct (D a d) as [r0|e]; cbn [bind] in H; [|discriminate].
+    destruct (IH _ _ H) as (r' & Er & Hr). exists (deco d r0 :: r'). split.
+    + rewrite Er, <- app_assoc. reflexivity.
+    + constructor; [apply deco_alike|exact Hr].
+Qed.
+
+Definition state_afterD (tf : Z) (xs : list cd) (Dst : store) : Prop := canonD (resample tf xs) = Ok Dst.
+
+Theorem append_on_timeframeD (tf : Z) (xs ys : list cd) (Dst : store) :
+  0 < tf -> sorted payload (xs ++ ys) -> Forall freshD (xs ++ ys) -> state_afterD tf xs Dst ->
+  exists Mst, collapse tf (Dst ++ ys) = Ok Mst /\ calculate NO I Mst = canonD (resample tf (xs ++ ys)).
+Proof.
+  intros Htf Hs Hf HD. unfold state_afterD in HD.
+  apply Forall_app in Hf. destruct Hf as [Hfx Hfy].
+  set (R := resample tf xs) in *.
+  assert (HfR : Forall freshD R) by (apply resample_acc_freshD; [constructor|exact Hfx]).
+  destruct (canonD_acc_alike R [] Dst HD) as (D' & ED & HA). cbn [app] in ED. subst D'.
+  pose proof (alike_map_t NO Dst R HA) as Et.
+  assert (Hsx : sorted payload xs).
+  { destruct xs as [|x0 xs']; [exact Logic.I|]. cbn [app sorted] in Hs.
+    destruct (sorted_from_app_inv payload xs' (t x0) ys Hs) as [A _]. exact A. }
+  assert (Hlx : lsorted payload tf xs) by (apply sorted_lsorted; assumption).
+  destruct (resample_shape payload mrg tf xs Htf Hlx) as [GR SR]. fold R in GR, SR.
+  assert (GD : on_grid payload tf Dst) by (eapply on_grid_t; [symmetry; exact Et|exact GR]).
+  assert (SD : strictly_inc payload Dst) by (eapply strictly_inc_t; [symmetry; exact Et|exact SR]).
+  assert (HcD : IsCanonD Dst) by (eapply canonD_acc_iscanon; [constructor|exact HfR|exact HD]).
+  assert (LS : lsorted payload tf (Dst ++ ys)).
+  { eapply lsorted_t; [|apply (lsorted_resample_app payload mrg tf xs ys Htf Hs)].
+    fold R. rewrite !map_app, Et. reflexivity. }
+  exists (resample tf (Dst ++ ys)). split; [apply collapse_lsorted; assumption|].
+  assert (E1 : resample tf (Dst ++ ys) = resample_acc tf (rev Dst) ys).
+  { unfold Manager.resample. rewrite resample_acc_app. rewrite (resample_acc_id payload mrg tf Htf Dst []); [reflexivity|exact GD|exact SD]. }
+  assert (E2 : resample tf (xs ++ ys) = resample_acc tf (rev R) ys).
+  { unfold Manager.resample. rewrite resample_acc_app. reflexivity. }
+  rewrite E1, E2.
+  clearbody R. destruct (exists_last_or_nil R) as [ER|(Rinit & r & ER)]; subst R.
+  - inversion HA; subst. cbn [rev]. fold (resample tf ys).
+    apply batch_is_canonD. apply resample_acc_freshD; [constructor|exact Hfy].
+  - destruct (Forall2_app_inv_r _ _ HA) as (Dinit & Dl & HAi & HAl & EDl).
+    destruct Dl as [|d Dl']; [inversion HAl|].
+    assert (Hdr : alike d r) by (inversion HAl; assumption).
+    assert (Dl' = []) by (inversion HAl as [|? ? ? ? _ Hnil]; inversion Hnil; reflexivity). subst Dl' Dst. clear HAl.
+    rewrite !rev_unit. rewrite (resample_acc_head payload mrg tf ys d (rev Dinit)).
+    rewrite (resample_acc_head payload mrg tf ys r (rev Rinit)). rewrite !rev_involutive.
+    unfold canonD in HD. rewrite canonD_acc_app in HD.
+    destruct (canonD_acc [] Rinit) as [mid|e] eqn:Emid; cbn [bind] in HD; [|discriminate].
+    cbn [canonD_acc] in HD.
+    destruct (D mid r) as [r0|e] eqn:Ev; cbn [bind] in HD; [|discriminate].
+    inversion HD as [HDeq]. apply app_inj_tail in HDeq. destruct HDeq as [Hmid Hd]. subst mid.
+    apply Forall_app in HfR. destruct HfR as [HfRi HfRl]. assert (Hfr : freshD r) by (inversion HfRl; assumption).
+    assert (HcDi : IsCanonD Dinit) by (eapply canonD_acc_iscanon; [constructor|exact HfRi|exact Emid]).
+    destruct (resample_acc_alike payload mrg tf d r ys Hdr) as [(tl & T1 & T2)|(T1 & c & l' & El & Ht & T3)].
+    + rewrite T1, T2.
+      assert (Hftl : Forall freshD tl).
+      { assert (Hall : Forall freshD (resample_acc tf [r] ys)) by (apply resample_acc_freshD; [constructor; [exact Hfr|constructor]|exact Hfy]).
+        rewrite T2 in Hall. inversion Hall; assumption. }
+      replace (Dinit ++ d :: tl) with ((Dinit ++ [d]) ++ tl) by (rewrite <- app_assoc; reflexivity).
+      replace (Rinit ++ r :: tl) with ((Rinit ++ [r]) ++ tl) by (rewrite <- app_assoc; reflexivity).
+      rewrite append_is_canonD by assumption.
+      unfold canonD. rewrite canonD_acc_app. rewrite canonD_acc_app. rewrite Emid. cbn [bind canonD_acc].
+      rewrite Ev. cbn [bind]. rewrite Hd. reflexivity.
+    + rewrite <- T1.
+      assert (HfF : Forall freshD (resample_acc tf [d] ys)).
+      { rewrite T3. subst ys. inversion Hfy; subst. apply resample_acc_freshD; [constructor; [apply merged_freshD|constructor]|assumption]. }
+      rewrite append_is_canonD by assumption.
+      unfold canonD. rewrite canonD_acc_app. rewrite Emid. reflexivity.
+Qed.
+
+(* no repainting on a collapsing timeframe: every bucket but the last (still open) one of
+   the state after xs is, with its readings and helper entries, a bucket of the state after xs ++ ys *)
+Theorem closed_buckets_finalD (tf : Z) (xs ys : list cd) (Dst D' : store) :
+  0 < tf -> state_afterD tf xs Dst -> state_afterD tf (xs ++ ys) D' ->
+  exists tl, D' = removelast Dst ++ tl.
+Proof.
+  intros Htf HD HD'. unfold state_afterD in *.
+  assert (E2 : resample tf (xs ++ ys) = resample_acc tf (rev (resample tf xs)) ys).
+  { unfold Manager.resample. rewrite resample_acc_app. reflexivity. }
+  rewrite E2 in HD'. clear E2.
+  destruct (exists_last_or_nil (resample tf xs)) as [ER|(Rinit & r & ER)]; rewrite ER in *.
+  - inversion HD; subst Dst. exists D'. reflexivity.
+  - rewrite rev_unit in HD'. rewrite (resample_acc_head payload mrg tf ys r (rev Rinit)) in HD'. rewrite rev_involutive in HD'.
+    unfold canonD in HD, HD'. rewrite canonD_acc_app in HD, HD'.
+    destruct (canonD_acc [] Rinit) as [mid|e] eqn:Emid; cbn [bind] in HD, HD'; [|discriminate].
+    destruct (canonD_acc_alike _ _ _ HD) as (l1 & E1 & A1).
+    destruct (canonD_acc_alike _ _ _ HD') as (l2 & E2 & _).
+    inversion A1 as [|? ? ? ? _ A1']; subst. inversion A1'; subst.
+    exists l2. rewrite removelast_last. reflexivity.
 Qed.
 
 (* ---------------------------------------------------------------- work per append (C07) *)
